@@ -170,6 +170,61 @@ def gen_history(rng, nframes, gsm=True):
     return cur, ops
 
 
+def gen_nested(rng, nframes):
+    """Histories in which callbacks schedule further items while the frame is being executed.
+    Input construction keeps what the statement needs to be judged without looking at the order of
+    execution: every item of the run has its own parameters (p3 is a running number) and no frame
+    gets more than K items (a shadow of the items per frame is kept for that purpose only)."""
+    cur = rng.randrange(D)
+    ops = []
+    serial = [rng.randrange(1000)]
+    frames = [[] for _ in range(D)]          # frames[r]: [cb, p1, p2, p3, prio] due r advances from now
+
+    def fresh(prio=None):
+        serial[0] += 1
+        pr = prio if prio is not None else rng.choice([rng.choice(EXTREME), rng.randint(-5, 5), rng.randint(-32768, 32767)])
+        return [rng.randint(1, 4), rng.randrange(256), rng.randrange(256), serial[0] % 65536, pr]
+
+    for _ in range(nframes):
+        for _ in range(rng.choice([0, 1, 2, 3])):
+            off = rng.choice([0, 0, 1, 2, rng.randrange(D)])
+            if len(frames[off]) < 5:
+                it = fresh()
+                frames[off].append(it)
+                ops.append(("S", off, it[0], it[1], it[2], it[3], it[4]))
+        due = list(frames[0])
+        sp = []
+        pending = list(due)
+        rng.shuffle(pending)
+        while pending and len(sp) < 4 and rng.random() < 0.7:
+            creator = pending.pop()
+            off = rng.choice([0, 0, 0, 1, 2, D - 1])
+            if len(frames[off]) + sum(1 for _, s_ in sp if s_[0] == off) >= 7:
+                continue
+            # lower, equal or higher priority than the creator: all must run in this frame when off = 0
+            new = fresh(prio=rng.choice([creator[4] - 1 if creator[4] > -32768 else creator[4], creator[4], creator[4] + 1 if creator[4] < 32767 else creator[4],
+                                         rng.choice(EXTREME), rng.randint(-32768, 32767)]))
+            sp.append((creator[:4], [off] + new))
+            if off == 0:
+                pending.append(new)          # an on-the-fly item may schedule again
+                due.append(new)
+            else:
+                frames[off].append(new)
+        ops.append(("EN", sp) if sp else ("E",))
+        frames[0] = []
+        for _ in range(rng.choice([0, 1])):
+            off = rng.randint(1, D - 1)
+            if len(frames[off]) < 5:
+                it = fresh()
+                frames[off].append(it)
+                ops.append(("S", off, it[0], it[1], it[2], it[3], it[4]))
+        ops.append(("A",))
+        frames = frames[1:] + [[]]
+    for _ in range(D):
+        ops += [("E",), ("A",)]
+    return cur, ops
+
+
 def ops_from_sim(states):
     """Operation sequence of a TLC-simulated behaviour of TdmaSched (real D, K)."""
     cur = states[0]["cur"]
@@ -183,6 +238,8 @@ def ops_from_sim(states):
             ops.append(("T", a[0], [list(e) for e in a[1]], a[2]))
         elif op == "exec":
             ops.append(("E",))
+        elif op == "execn":
+            ops.append(("EN", [(list(x["by"]), list(x["s"])) for x in a[0]]))
         elif op == "adv":
             ops.append(("A",))
         elif op == "reset":
@@ -217,6 +274,8 @@ def script_line(op):
         return "G %d %d %d %s" % (op[1], op[3], len(op[2]), flat(op[2]))
     if k == "X":
         return "X %d" % op[1]
+    if k == "EN":       # two driver lines: arm the spawns, then execute
+        return "F %d %s\nE" % (len(op[1]), " ".join("%d %d %d %d %d %d %d %d %d %d" % (tuple(by) + tuple(s_)) for by, s_ in op[1]))
     return k
 
 
@@ -228,6 +287,8 @@ def event_of(op, out):
         return dict(e="set", off=op[1], items=op[2], p3=op[3], rc=out["rc"])
     if k == "E":
         return dict(e="exec", calls=out["calls"], rc=out["rc"])
+    if k == "EN":
+        return dict(e="execn", calls=out["calls"], rc=out["rc"], sp=[dict(by=list(by), s=list(s_)) for by, s_ in op[1]])
     if k == "A":
         return dict(e="adv")
     if k == "R":
@@ -258,15 +319,20 @@ def run_batch(exe, jobs):
     traces = []
     i = 0
     for ji, (tid, cur, ops) in enumerate(jobs):
-        need = 1 + len(ops)
+        need = 1 + len(ops) + sum(1 for o in ops if o[0] == "EN")     # EN = two driver lines (F, E)
         if i + need > len(outs):
             return traces, (ji, p.returncode, p.stderr[-3000:])
         chunk = outs[i:i + need]
         i += need
         ev = []
-        for op, ln in zip(ops, chunk[1:]):
+        k = 1
+        for op in ops:
+            if op[0] == "EN":
+                k += 1          # the answer to F
+            ln = chunk[k]
+            k += 1
             o = json.loads(ln)
-            if o["op"] != op[0]:
+            if o["op"] != ("E" if op[0] == "EN" else op[0]):
                 raise tlc.MachineryError("driver output out of step: %r for %r" % (ln, op))
             ev.append(event_of(op, o))
         traces.append(dict(id=tid, cfg=dict(cur=cur), ev=ev))
@@ -317,6 +383,12 @@ def stats_of(tr, acc):
             n = len(e["calls"])
             acc["callbacks"] += n
             acc["maxfill"] = max(acc["maxfill"], n)
+        elif k == "execn":
+            acc["callbacks"] += len(e["calls"])
+            acc["nested_executes"] = acc.get("nested_executes", 0) + 1
+            acc["on_the_fly_items"] = acc.get("on_the_fly_items", 0) + len(e["sp"])
+            if tr["id"].startswith("g"):
+                acc["nested_executes_from_tlc_simulation"] = acc.get("nested_executes_from_tlc_simulation", 0) + 1
         elif k == "sched":
             acc["sched"] += 1
             if e["rc"] == -1:
@@ -351,7 +423,8 @@ def run(ctx):
     ]
     # ---- MC and simulation run in the background while the real code runs ----
     mc_jobs = [("MC_TdmaSchedQ.cfg", "D=3 K=2 prios{-1,0,1} sets<=3 entries/3 frames, runs of any length"),
-               ("MC_TdmaSchedK3.cfg", "D=2 K=3: the exchange sort on 3 items, sets<=5 entries")]
+               ("MC_TdmaSchedK3.cfg", "D=2 K=3: the exchange sort on 3 items, sets<=5 entries"),
+               ("MC_TdmaNested.cfg", "D=2 K=3: callbacks that schedule on the fly (0 or 1 frames ahead, chains of two)")]
     if ctx.thorough:
         mc_jobs += [("MC_TdmaSched.cfg", "D=4 K=2 prios{-1,0,1} sets<=4 entries/3 frames, runs of any length"),
                     ("MC_TdmaGsm.cfg", "D=3 K=2 with one-shot GSM-time events (pool of 2)")]
@@ -447,6 +520,10 @@ def run(ctx):
         if i < D:
             cur = i                      # every ring position at least once
         jobs.append(("r%d" % i, cur, ops))
+    # callbacks that schedule further items while their frame is executed
+    for i in range(ctx.pick(120, 5000)):
+        cur, ops = gen_nested(ctx.rng, ctx.rng.randint(2, 20))
+        jobs.append(("n%d" % i, cur, ops))
     through_the_code(jobs, "random")
     # ---- GEN: TLC-simulated behaviours ------------------------------------
     r = sim_fut.result()
